@@ -48,7 +48,10 @@ What is proved here (about `Model/Sched.lean`, a literal port of `scheduler.rs`,
   `C11_heap_tie_order_witness`): the literal port of `BinaryHeap::push`/`pop` is a priority queue ordered by `when`;
   `C11_binary_heap_meets_spec` and the `…_on_binary_heap` corollaries restate every theorem above for the scheduler
   loops with that port inside (`Vm.runH stdHeap`, `W.runH stdHeap`, `M.run stdHeap`), with no oracle and no hypothesis
-  about the heap.
+  about the heap;
+* closure records with captured values (`R.run fmt`, records of any size): `C11_wasm_mem_records_one_cell_eq`,
+  `C11_wasm_mem_records_slot_consistent_partial` (+ `…_on_binary_heap`), `C11_table_record_format_ok`,
+  `C11_wasm_record_upvalue_read_as_function_counterexample` (a task is dropped).
 
 Not proved (exercised by the correspondence only): that the port IS what `std::collections::BinaryHeap` does (exact pop
 order compared on every handle-level history), `mpsc` FIFO, closure retention
